@@ -167,7 +167,7 @@ PROPS = {
     },
     "C17": {
         "lean": ["FsnVerif.Props.C17"],
-        "lean_support": ["FsnVerif.Proofs.KqLemmas", "FsnVerif.Model.Kqueue", "FsnVerif.Model.KqFull", "FsnVerif.Proofs.KqFullLemmas", "FsnVerif.Proofs.KqFullInv", "FsnVerif.Proofs.KqFullFrame", "FsnVerif.Proofs.KqFullRemove"],
+        "lean_support": ["FsnVerif.Proofs.KqLemmas", "FsnVerif.Model.Kqueue", "FsnVerif.Model.KqFull", "FsnVerif.Proofs.KqFullLemmas", "FsnVerif.Proofs.KqFullInv", "FsnVerif.Proofs.KqFullFrame", "FsnVerif.Proofs.KqFullRemove", "FsnVerif.Proofs.KqFullQueueGone"],
         "stages": [{"name": "kq", "cmd": "scratch:kq", "what": "C17", "session_ops": ["kqf", "reset"]}],
         "rule": KQ_RULE,
         "assumptions": ["the kqueue kernel interface is SIMULATED (kqsim/unix): EVFILT_VNODE knotes with EV_CLEAR coalescing, close-pipe EOF; "
